@@ -280,7 +280,7 @@ class DiameterAssociation(object):
                                                "stream.")
 
                     while not self._stop_threads and self.transport:
-                        self.transport.write_mode_on.wait()
+                        self.transport.write_mode_on.wait(timeout=LISTENING_TICKER)
                         if not self.transport.is_write_mode():
                             diameter_conn_logger.debug("Transport Layer is not in "\
                                                        "WRITE mode again, so we "\
